@@ -54,6 +54,10 @@ static bool grown_only(const std::string& before, const std::string& after)
       const std::string& w = it->second;
       if (v == w) continue;
       if (k == "size" or k == "try_block" or k.size() > 6 and k.substr(k.size() - 6) == ".probe") continue;
+      // any other count of a growing container (whatever the accessor is called) may only grow; a flag may turn from false to true
+      auto is_count = [](const std::string& x) { return not x.empty() and x.size() < 19 and x.find_first_not_of("0123456789") == std::string::npos; };
+      if (is_count(v) and is_count(w) and std::stoull(w) >= std::stoull(v)) continue;
+      if (v == "false" and w == "true") continue;
       auto list_prefix = [](std::string x, std::string y) {
          auto lb = x.find('['); if (lb == std::string::npos or y.compare(0, lb + 1, x, 0, lb + 1) != 0) return false;
          if (x.back() != ']' or y.back() != ']') return false;
